@@ -367,6 +367,30 @@ class Case:
             job._on_timeout_set = None
         return ['hook-ran', len(ran)]
 
+    def ev_ready_scan(self, j, i, ok, tag, dt, lingers=False):
+        """the result of job j is handled, and WHILE ApplyResult._set runs the job's result callback the
+        clock moves on by dt and the timeout handler scans (a slow user callback; the scanner is another
+        thread).  The job's result has been processed: nothing may be signalled on its behalf."""
+        case = self
+        ran = []
+        d = self.cb[j]
+
+        class Hooked(list):
+            def append(self_, item):
+                list.append(self_, item)
+                if not ran:
+                    ran.append(1)
+                    CLOCK[0] += dt
+                    case.ev_scan(lingers)
+        for key in ('succ', 'err'):
+            d[key] = Hooked(d[key])
+        try:
+            self.ev_ready(j, i, ok, tag)
+        finally:
+            for key in ('succ', 'err'):
+                d[key] = list(d[key])
+        return ['hook-ran', len(ran)]
+
     def ev_ready(self, j, i, ok, tag):
         job = self.jobs[j]
         if ok:
@@ -590,6 +614,30 @@ class Case:
         if idle and p._putlock is not None and p._putlock._value < min(max(n, 1), idle):
             return 'Blocked'
         self.pool.shrink(n)
+
+    def ev_shrink_tick(self, n):
+        """shrink(n) with a supervision pass of the supervisor thread interleaved where shrink() waits for
+        the semaphore (`_putlock.shrink()` blocks while every slot is taken): the pass must not undo the
+        shrink by replacing the worker that is being stopped"""
+        p = self.pool
+        lock = p._putlock
+        if lock is None:
+            return self.ev_shrink(n)
+        real = lock.shrink
+        case = self
+        ran = []
+
+        def shrink_with_pass():
+            if not ran:
+                ran.append(1)
+                case.ev_tick()
+            return real()
+        lock.shrink = shrink_with_pass
+        try:
+            p.shrink(n)
+        finally:
+            del lock.shrink
+        return ['hook-ran', len(ran)]
 
     def ev_close(self):
         self.pool.close()
